@@ -78,7 +78,9 @@ RedecChecks(c, x, tab) ==
                       Chk("C15", "redecode_" \o name \o "_equal", o.kind = "ok" => o.eq /\ o.hash_eq)>>
   IN r(x.redec.bytes, "bytes") \o r(x.redec.text, "text") \o r(x.redec.json, "json")
      \o r(x.redec.json_value, "json_value") \o r(x.redec.json_reader, "json_reader")
-     \o <<Chk("C12", "text_without_prefix_parses", x.redec.text_noprefix.kind = "ok"
+     \o <<Chk("C07", "seq_survives_encode_decode",
+              \A o \in {x.redec.bytes, x.redec.text, x.redec.json} : o.kind = "ok" /\ tab[o.core].seq = c.seq),
+          Chk("C12", "text_without_prefix_parses", x.redec.text_noprefix.kind = "ok"
                        /\ tab[x.redec.text_noprefix.core] = c /\ x.redec.text_noprefix.eq),
           Chk("C13", "redecode_consumes_all", x.redec.bytes.kind = "ok" => x.redec.bytes.rest = 0)>>
 
@@ -165,9 +167,21 @@ BuilderReadBack(calls, x, acc) ==
 (***************************************************************************)
 \* checks on one outcome o (under key type kt) of decoding the buffer b whose first item the
 \* specification judges as D; `local` = o is the outcome for the item alone (or there is no suffix)
-OutcomeChecks(kt, b, o, D, tab, pAcc, pRej) ==
+\* the signature the input carries is authentic for key type kt, as far as the independent oracle can tell from
+\* the bytes as they are (whatever else is wrong with them)
+Authentic(kt, F) ==
+  LET secpOk == F.secp.present /\ F.secp.valid /\ F.secp.sm /\ Len(F.sig) = 64 /\ LowS(F.sig)
+      edOk == F.ed.present /\ F.ed.valid /\ F.ed.sm /\ Len(F.sig) = 64
+  IN CASE KBase(kt) \in {"k256", "libsecp"} -> secpOk
+       [] KBase(kt) = "ed" -> edOk
+       [] KBase(kt) = "comb" -> IF F.secp.present /\ F.secp.valid THEN secpOk ELSE edOk
+       [] OTHER -> TRUE
+
+OutcomeChecks(kt, b, o, D, tab, pAcc, pRej, F) ==
   <<Chk("TOOL", "dec_facts_match", ~D.fm),
-    Chk("C03", "decode_panics", o.kind # "panic")>>
+    Chk("C03", "decode_panics", o.kind # "panic"),
+    \* C01 whatever the structure: nothing is accepted whose signature does not verify for the bytes as they are
+    Chk("C01", "unauthentic_input_accepted:" \o KBase(kt), (o.kind = "ok" /\ F.ok /\ Len(F.secp.pk) \in {0, 33}) => Authentic(kt, F))>>
   \o When(~D.fm,
     <<Chk(pAcc, "valid_record_rejected:" \o KBase(kt), D.verdict = "accept" => o.kind # "err"),
       Chk(pRej, "invalid_record_accepted:" \o D.why \o ":" \o KBase(kt), D.verdict = "reject" => o.kind # "ok")>>
@@ -201,12 +215,12 @@ DecodeChecks(e) ==
       perKt(q) ==
         IF suffix /\ Len(e.alone) = n
         THEN \* the item alone is judged for C01/C02; the buffer with its suffix for C13
-             OutcomeChecks(e.kts[q], SubSeq(b, 1, ilen), e.alone[q], D(q), e.tab, "C02", RejProp(D(q)))
+             OutcomeChecks(e.kts[q], SubSeq(b, 1, ilen), e.alone[q], D(q), e.tab, "C02", RejProp(D(q)), e.facts)
              \o <<Chk("C13", "same_outcome_with_suffix:" \o KBase(e.kts[q]),
                       e.res[q].kind = e.alone[q].kind /\ e.res[q].core = e.alone[q].core),
                   Chk("C13", "advances_by_item_length",
                       e.res[q].kind = "ok" => e.res[q].rest = Len(b) - ilen)>>
-        ELSE OutcomeChecks(e.kts[q], b, e.res[q], D(q), e.tab, "C02", RejProp(D(q)))
+        ELSE OutcomeChecks(e.kts[q], b, e.res[q], D(q), e.tab, "C02", RejProp(D(q)), e.facts)
       \* C11: key types that the specification treats alike must have behaved alike
       verd == [q \in 1..n |-> [v |-> D(q).verdict, why |-> D(q).why]]
       accCores == {e.res[q].core : q \in {k \in 1..n : verd[k].v = "accept" /\ e.res[k].kind = "ok"}}
@@ -284,6 +298,7 @@ OutcomeRule(e, hard, soft, A) ==
     Chk("C05", "unsupported_id_not_refused", (ok /\ A.idErr) => FALSE),
     Chk("C05", "illtyped_value_not_refused", (ok /\ A.typedErr) => FALSE),
     Chk("C05", "signing_failure_swallowed", (ok /\ e.fault = 1) => FALSE),
+    Chk("C08", "succeeded_although_a_failure_cause_applies", ok => hard = {}),
     Chk("C09", "refused_for_size_but_fits",
         (err /\ e.out.err = "ExceedsMaxSize") => "ExceedsMaxSize" \in (hard \cup soft)),
     Chk("C08", "error_kind_matches_cause",
